@@ -326,11 +326,14 @@ func (db *DB) OpenTransaction() (*Transaction, error) {
 			<-db.writeLockC
 			return nil, err
 		}
-	} else if err := db.compTriggerWait(db.mcompCmdC); err != nil {
-		// A frozen memdb, if any, must be flushed before the transaction
-		// records its sequence number.
-		<-db.writeLockC
-		return nil, err
+	} else if fm := db.getFrozenMem(); fm != nil {
+		// A frozen memdb must be flushed before the transaction records its
+		// sequence number.
+		fm.decref()
+		if err := db.compTriggerWait(db.mcompCmdC); err != nil {
+			<-db.writeLockC
+			return nil, err
+		}
 	}
 
 	// Wait compaction when certain threshold reached.
